@@ -20,13 +20,26 @@ template<> bool units_of<int>(const GraphSpec &, int v, ll &u) { u = v; return t
 
 static std::string pcase(const GraphSpec &s, const char *what, const char *wt) { return J().str("component", what).str("weight_type", wt).raw("graph", spec_json(s)).done(); }
 
+// the weight map is a template parameter of every building block: the interior edge_weight map (an empty class) and a
+// stateful one (associative_property_map over a std::map owned by the caller) are both exercised
+template<class W, bool Ext> struct WmSel;
+template<class W> struct WmSel<W, false> {
+    typedef typename BG<W>::WMap type; typedef std::map<typename BG<W>::Edge, W> Store;
+    static type make(typename BG<W>::Graph &g, Store &) { return boost::get(boost::edge_weight, g); }
+};
+template<class W> struct WmSel<W, true> {
+    typedef std::map<typename BG<W>::Edge, W> Store; typedef boost::associative_property_map<Store> type;
+    static type make(typename BG<W>::Graph &g, Store &st) { auto w = boost::get(boost::edge_weight, g); for (auto e : boost::make_iterator_range(boost::edges(g))) st[e] = boost::get(w, e); return type(st); }
+};
+
 // ------------------------------------------------------------------------------------------------
 // C12
 // ------------------------------------------------------------------------------------------------
-template<class W>
+template<class W, bool Ext>
 static void run_c12(CaseOut &co, const GraphSpec &s, long &pairs, long &subpaths) {
-    typedef typename BG<W>::Graph G; typedef typename BG<W>::WMap WM;
-    G g; build_graph<W>(s, g); WM w = boost::get(boost::edge_weight, g);
+    typedef typename BG<W>::Graph G; typedef typename WmSel<W, Ext>::type WM;
+    G g; build_graph<W>(s, g); typename WmSel<W, Ext>::Store store; WM w = WmSel<W, Ext>::make(g, store);
+    if (Ext) co.tag("weightmap:external_std_map");
     auto index_map = boost::get(boost::vertex_index, g);
     EdgeIndex<W> idx(s, g);
     int n = s.n;
@@ -112,7 +125,9 @@ static void mode_c12(const Args &a) {
         else { GenOpts o; o.max_n = max_n; o.tie_bias = 0.85; o.int_only = use_int; s = gen_graph(r, o); }
         CaseOut co(i);
         long p0 = pairs;
-        if (use_int) run_c12<int>(co, s, pairs, subpaths); else run_c12<double>(co, s, pairs, subpaths);
+        bool ext = s.n <= 40 && (mix(canon_hash(s), 4242) % 10) < 3;
+        if (use_int) { if (ext) run_c12<int, true>(co, s, pairs, subpaths); else run_c12<int, false>(co, s, pairs, subpaths); }
+        else { if (ext) run_c12<double, true>(co, s, pairs, subpaths); else run_c12<double, false>(co, s, pairs, subpaths); }
         long conn_pairs = 0; { UF uf(s.n); for (auto &e : s.edges) uf.unite(e.u, e.v); std::map<int, long> sz; for (int q = 0; q < s.n; q++) sz[uf.find(q)]++; for (auto &c : sz) conn_pairs += c.second * (c.second - 1); }
         co.hash = mix(canon_hash(s), use_int); co.nontrivial = cycle_space_dim(s) >= 1 && conn_pairs >= 6;
         co.tag("fam:" + s.family.substr(0, s.family.find('+'))); if (s.tie_rich) co.tag("tie_rich"); if (components(s) > 1) co.tag("disconnected");
@@ -156,11 +171,29 @@ static void mode_c13(const Args &a) {
         }
         CaseOut co(i);
         G g; build_graph<double>(s, g);
-        std::vector<size_t> fvs; std::string exc;
-        try { parmcb::greedy_fvs(g, std::back_inserter(fvs)); } catch (std::exception &e) { exc = e.what(); } catch (...) { exc = "unknown"; }
-        std::string cj = pcase(s, "greedy_fvs", "-");
+        std::vector<size_t> fvs; std::string exc, sink_err;
+        // the output iterator is a template parameter: insert iterators, and positional ones (slots counted per write; a raw
+        // pointer into storage the caller sized for all n vertices)
+        int sink_kind = (int) (mix(canon_hash(s), 1313) % 10); sink_kind = sink_kind < 5 ? 0 : sink_kind < 8 ? 1 : 2;
+        try {
+            if (sink_kind == 0) parmcb::greedy_fvs(g, std::back_inserter(fvs));
+            else if (sink_kind == 1) {
+                SlotSink<size_t> sink((size_t) s.n + 4); parmcb::greedy_fvs(g, sink.begin());
+                size_t used = 0; while (used < sink.writes.size() && sink.writes[used] > 0) used++;
+                std::list<size_t> tmp; sink_err = sink.collect(used, tmp); fvs.assign(tmp.begin(), tmp.end());
+            } else {
+                const size_t SENT = (size_t) -7; std::vector<size_t> buf((size_t) s.n + 4, SENT); size_t *p = buf.data();
+                parmcb::greedy_fvs(g, p);
+                size_t used = 0; while (used < buf.size() && buf[used] != SENT) used++;
+                for (size_t q = used; q < buf.size(); q++) if (buf[q] != SENT) sink_err = "raw pointer output: slot " + std::to_string(q) + " was written after an untouched slot";
+                fvs.assign(buf.begin(), buf.begin() + used);
+            }
+        } catch (std::exception &e) { exc = e.what(); } catch (...) { exc = "unknown"; }
+        std::string cj = pcase(s, "greedy_fvs", sink_kind == 0 ? "back_inserter" : sink_kind == 1 ? "positional sink" : "raw pointer");
         int dim = cycle_space_dim(s);
+        co.tag(sink_kind == 0 ? "sink:back_inserter" : sink_kind == 1 ? "sink:positional" : "sink:raw_pointer");
         if (!exc.empty()) co.viol("fvs:exception", exc, cj, spec_text(s));
+        else if (!sink_err.empty()) co.viol("fvs:output_iterator_misuse", sink_err, cj, spec_text(s));
         else {
             std::vector<char> in(s.n, 0); bool bad = false;
             std::vector<ll> fl(fvs.begin(), fvs.end());
@@ -191,9 +224,9 @@ static void mode_c13(const Args &a) {
 // ------------------------------------------------------------------------------------------------
 template<class W> struct Cand { int root; int edge; Bits inc; ll w; };
 
-template<class W, class Builder>
-static bool collect(CaseOut &co, const GraphSpec &s, const typename BG<W>::Graph &g, typename BG<W>::WMap &w, const char *name, std::vector<Cand<W>> &out, const std::string &cj, long &ncand) {
-    typedef typename BG<W>::Graph G; typedef typename BG<W>::WMap WM;
+template<class W, class WM, class Builder>
+static bool collect(CaseOut &co, const GraphSpec &s, const typename BG<W>::Graph &g, WM &w, const char *name, std::vector<Cand<W>> &out, const std::string &cj, long &ncand) {
+    typedef typename BG<W>::Graph G;
     std::vector<parmcb::SPTree<G, WM>> trees; std::vector<parmcb::CandidateCycle<G, WM>> cycles;
     Builder b; b(g, w, trees, cycles);
     EdgeIndex<W> idx(s, g);
@@ -229,15 +262,16 @@ static bool collect(CaseOut &co, const GraphSpec &s, const typename BG<W>::Graph
     return true;
 }
 
-template<class W>
+template<class W, bool Ext>
 static void run_c14(CaseOut &co, const GraphSpec &s, long &ncand) {
-    typedef typename BG<W>::Graph G; typedef typename BG<W>::WMap WM;
-    G g; build_graph<W>(s, g); WM w = boost::get(boost::edge_weight, g);
+    typedef typename BG<W>::Graph G; typedef typename WmSel<W, Ext>::type WM;
+    G g; build_graph<W>(s, g); typename WmSel<W, Ext>::Store store; WM w = WmSel<W, Ext>::make(g, store);
+    if (Ext) co.tag("weightmap:external_std_map");
     std::string cj = pcase(s, "candidate collections", wname<W>());
     std::vector<Cand<W>> H, F, I;
-    if (!collect<W, parmcb::detail::HortonCyclesBuilder<G, WM>>(co, s, g, w, "horton", H, cj, ncand)) return;
-    if (!collect<W, parmcb::detail::FVSCyclesBuilder<G, WM>>(co, s, g, w, "fvs", F, cj, ncand)) return;
-    if (!collect<W, parmcb::detail::ISOCyclesBuilder<G, WM>>(co, s, g, w, "iso", I, cj, ncand)) return;
+    if (!collect<W, WM, parmcb::detail::HortonCyclesBuilder<G, WM>>(co, s, g, w, "horton", H, cj, ncand)) return;
+    if (!collect<W, WM, parmcb::detail::FVSCyclesBuilder<G, WM>>(co, s, g, w, "fvs", F, cj, ncand)) return;
+    if (!collect<W, WM, parmcb::detail::ISOCyclesBuilder<G, WM>>(co, s, g, w, "iso", I, cj, ncand)) return;
     std::set<std::pair<int, int>> hs; for (auto &c : H) hs.insert({c.root, c.edge});
     for (auto &c : F) if (!hs.count({c.root, c.edge})) { co.viol("fvs:not_in_horton", "FVS candidate (root " + std::to_string(c.root) + ", edge index " + std::to_string(c.edge) + ") is not in Horton's collection", cj, spec_text(s)); return; }
     for (auto &c : I) if (!hs.count({c.root, c.edge})) { co.viol("iso:not_in_horton", "ISO candidate (root " + std::to_string(c.root) + ", edge index " + std::to_string(c.edge) + ") is not in Horton's collection", cj, spec_text(s)); return; }
@@ -269,7 +303,9 @@ static void mode_c14(const Args &a) {
         else { GenOpts o; o.max_n = max_n; o.tie_bias = 0.65; o.int_only = use_int; s = gen_graph(r, o); }
         CaseOut co(i);
         long c0 = ncand;
-        if (use_int) run_c14<int>(co, s, ncand); else run_c14<double>(co, s, ncand);
+        bool ext = s.n <= 40 && (mix(canon_hash(s), 1414) % 10) < 3;
+        if (use_int) { if (ext) run_c14<int, true>(co, s, ncand); else run_c14<int, false>(co, s, ncand); }
+        else { if (ext) run_c14<double, true>(co, s, ncand); else run_c14<double, false>(co, s, ncand); }
         co.hash = mix(canon_hash(s), use_int); co.nontrivial = cycle_space_dim(s) >= 2;
         co.tag("fam:" + s.family.substr(0, s.family.find('+'))); if (s.tie_rich) co.tag("tie_rich");
         if ((int) (i - a.from) < a.samples) co.sample = J().raw("graph", spec_json(s, 40)).num("candidates_checked", ncand - c0).done();
